@@ -528,9 +528,13 @@ def et_safe(name):
     """ElementTree re-serialisation keeps the document's meaning (false for documents whose CONTENT uses prefixes: ElementTree renumbers them)."""
     import xml.etree.ElementTree as ET
 
+    import warnings
+
     cls, text = doc_text(name)
     try:
-        return parse(ET.tostring(ET.fromstring(text), encoding="utf-8"), cls, "native") == parse(text, cls, "native")
+        with warnings.catch_warnings():
+            warnings.simplefilter("ignore")
+            return parse(ET.tostring(ET.fromstring(text), encoding="utf-8"), cls, "native") == parse(text, cls, "native")
     except Exception:  # noqa: BLE001
         return False
 
